@@ -57,13 +57,31 @@ def gas_heat_net(rng, fluid=None):
     ops.append(["create_ext_grid", {"junction": 0, "p_bar": 3.0, "t_k": t0, "index": 0}])
     for i in range(n - 1):
         a, c = i, i + 1
-        if rng.random() < 0.6:
+        if i == 0 or rng.random() < 0.5:
             a, c = c, a                              # reverse declaration -> negative mass flow -> switched in heat mode
         ops.append(["create_pipe_from_parameters", {"from_junction": a, "to_junction": c, "length_km": rng.choice([0.3, 1.0]),
                                                     "inner_diameter_mm": 100., "k_mm": 0.1, "sections": rng.choice([1, 2]),
                                                     "u_w_per_m2k": rng.choice([2.0, 10.0]), "text_k": 283.15, "index": i}])
     ops.append(["create_sink", {"junction": n - 1, "mdot_kg_per_s": rng.choice([0.02, 0.05]), "index": 0}])
     return {"fluid": fluid, "ops": ops, "mode": "sequential"}
+
+
+def pc_chain_net(rng, fluid=None, controlled="to"):
+    """ext grid -> pipe -> pressure controller -> pipes -> sink (controlled junction = to junction of the PC, or the
+    junction one pipe further)"""
+    fluid = fluid or rng.choice(["water"] + gen.GASES)
+    gas = fluid != "water"
+    ops = [["create_junction", {"pn_bar": 5.0, "tfluid_k": 293.15, "index": i}] for i in range(5)]
+    ops.append(["create_ext_grid", {"junction": 0, "p_bar": 5.0, "t_k": 293.15, "index": 0}])
+    d = rng.choice([80., 100., 150.])
+    for i, (a, c) in enumerate([(0, 1), (2, 3), (3, 4)]):
+        ops.append(["create_pipe_from_parameters", {"from_junction": a, "to_junction": c, "length_km": rng.choice([0.2, 0.5]),
+                                                    "inner_diameter_mm": d, "k_mm": 0.1, "index": i}])
+    ops.append(["create_pressure_control", {"from_junction": 1, "to_junction": 2,
+                                            "controlled_junction": 2 if controlled == "to" else 3,
+                                            "controlled_p_bar": rng.choice([4.0, 4.5]), "index": 0}])
+    ops.append(["create_sink", {"junction": 4, "mdot_kg_per_s": (0.02 if gas else 0.5) * rng.choice([0.5, 1.0]), "index": 0}])
+    return {"fluid": fluid, "ops": ops, "pc": controlled}
 
 
 def set_loads(net, factor):
